@@ -49,8 +49,17 @@ isfinal:加载是否结束
 class iobuffer
 {
 public:
+#ifdef WENCRY_VERIF
+#ifndef WENCRY_VERIF_BUF_SZ
+#define WENCRY_VERIF_BUF_SZ 16
+#endif
+  // verification build: small compile-time capacity, chunk size (bytes, multiple of 16, <= BUF_SZ*16) set at run time
+  static const u32_t BUF_SZ = WENCRY_VERIF_BUF_SZ;
+  static u32_t sum;
+#else
   static const u32_t BUF_SZ = 0x100000;
   static const u32_t sum = 0x1000000;
+#endif
 
 private:
   u8_t b[BUF_SZ][0x10];
